@@ -69,6 +69,16 @@ func (cm *MemChatManager) Leave(id ChatID, clientID [2]byte) {
 	delete(privChat.ClientConn, clientID)
 }
 
+// LeaveAll removes a client from every private chat.
+func (cm *MemChatManager) LeaveAll(clientID [2]byte) {
+	cm.mu.Lock()
+	defer cm.mu.Unlock()
+
+	for _, privChat := range cm.chats {
+		delete(privChat.ClientConn, clientID)
+	}
+}
+
 func (cm *MemChatManager) GetSubject(id ChatID) string {
 	cm.mu.Lock()
 	defer cm.mu.Unlock()
